@@ -93,6 +93,16 @@ OpOk ==
               /\ (Has("ch") /\ Ev.whole = 1 => V("COPIES", OnlyLiveCopies(vals, Ev.t),
                    <<"after a complete whole-domain query at", Ev.t, "stored copies", AllCopies>>))
          ELSE Same /\ Breach(<<"query outside the contract", Ev.a, Ev.b, Ev.t, now, len>>)
+    [] Ev.op = "queryn" ->       \* a query whose yield is logged in summary: n items, nd distinct ids, the first 40 ids
+         IF InDomain(Ev.a) /\ InDomain(Ev.b) /\ Ev.a <= Ev.b /\ R!CanQuery(Ev.t)
+         THEN LET ex == R!Expect(B(Ev.a), B(Ev.b), Ev.t)
+                  ne == Cardinality(ex) IN
+              /\ vals' = vals /\ now' = Ev.t
+              /\ V("YIELD", Ev.nd = Ev.n /\ Ev.n <= ne /\ SubsetC(R!Range(Ev.res), ex),
+                   <<"query yielded", Ev.n, "items,", Ev.nd, "distinct;", ne, "values are allowed; first items", Ev.res>>)
+              /\ V("COMPLETE", Ev.n = IF Ev.take < 0 \/ ne < Ev.take THEN ne ELSE Ev.take,
+                   <<"query yielded", Ev.n, "items of", ne, "take", Ev.take>>)
+         ELSE Same /\ Breach(<<"query outside the contract", Ev.a, Ev.b, Ev.t, now, len>>)
     [] Ev.op = "clear" ->
          /\ vals' = {} /\ now' = MinTime
          /\ V("CLEARED", Ev.ch = <<>>, <<"copies stored after clear", Ev.ch>>)
